@@ -11,7 +11,7 @@ import (
 func init() {
 	Registry["C06"] = RuleDef{Module: ".", Run: runC06,
 		Technique:   "who-may-call rule on the cache-store interface, guard / must-pass rules on the invalidation and purge paths, emission-order rule on the tracked fetch batches, lock-set rule on the LRU store",
-		Explanation: "Decides (R06a) that commits (Update), invalidations (Delete, via handlePush) and connection loss (Close) are only issued from the connection's reader/teardown goroutine, and lookups (Flight/Flights) and cancellations only from the cached request paths, so commit and invalidation are serialised in wire order; (R06b) that the `invalidate` push reaches the store on every path when a store exists, with nil exactly for a null key list; (R06c) that purging removes exactly the completed entries of a key and keeps walking past in-flight ones, that a flush visits every key, and that nothing but the constructor and Close replaces the store's containers; (R06e) that every batch fetching a cacheable command starts with the opt-in command, that the transactional form is [OPT-IN, MULTI, PTTL key, cmd, EXEC] with the static-TTL tag cleared before the command is queued, and that the reader commits only under an opt-in led batch or the static-TTL gate; (R06f) that the identity used for lookup and for commit is computed by the same identity functions from the command being fetched / the queue entry being committed; (R06g) that the LRU store's containers are only touched under its mutex.",
+		Explanation: "Decides (R06a) that commits (Update), invalidations (Delete, via handlePush) and connection loss (Close) are only issued from the connection's reader/teardown goroutine, and lookups (Flight/Flights) and cancellations only from the cached request paths, so commit and invalidation are serialised in wire order; (R06b) that the `invalidate` push reaches the store on every path when a store exists, with nil exactly for a null key list; (R06c) that purging removes exactly the completed entries of a key and keeps walking past in-flight ones, that a flush visits every key, and that nothing but the constructor and Close replaces the store's containers; (R06e) that every batch fetching a cacheable command starts with the opt-in command, that the transactional form is [OPT-IN, MULTI, PTTL key, cmd, EXEC] with the static-TTL tag cleared before the command is queued, and that the reader commits only under an opt-in led batch or the static-TTL gate; (R06f) that the identity used for lookup and for commit is computed by the same identity functions from the command being fetched / the queue entry being committed; (R06g) that the LRU store's containers are only touched under its mutex. (R06h) in the partial MGET a fetched reply is placed into a position only after every cached or awaited reply was placed, so each key receives the reply of its own command.",
 		NotDecided:  "Redis' own ordering of pushes versus replies and tracking-mode semantics on the server; the read-lock fast path versus a concurrent Update publishing e.val (a data-race question)."}
 	Registry["C09"] = RuleDef{Module: ".", Run: runC09,
 		Technique:   "must-pass and ordering rules on owner-failure arms, guard rules on what is put on the wire, lock-set and once-rules on flight completion in both stores",
@@ -47,6 +47,7 @@ func whoMayCall(r *Report, rule, callee string, allowed ...string) {
 }
 
 func runC06(r *Report) {
+	mgetHoleRefillRule(r, "R06h")
 	p := r.P
 	const P = "rueidis.(*pipe)."
 	whoMayCall(r, "R06a", "iface:rueidis.CacheStore.Update", P+"_backgroundRead")
